@@ -128,6 +128,7 @@ func runC15(c *Ctx) {
 	ruleOpenTruncates(c, "OPEN-TRUNCATES")
 	ruleStaleErr(c, "R-STALE-ERR", c.P.ModulePkgs())
 	ruleErrOverwrittenInLoop(c, "R-ERRLOOP", c.P.ModulePkgs())
+	ruleJoinedErrWhole(c, "PARALLEL-ERR-WHOLE", c.P.ModulePkgs(), 6)
 	// the module cache's archive object is requested atomically (shared with C09 MARKER-ATOMIC)
 	c.Rule("ATOMIC-REQUESTED", "objects whose presence means \"complete\" to a reader are written with the atomic option", 1)
 	c09MarkerLastShared(c, "MARKER-LAST")
